@@ -158,8 +158,9 @@ where
         // => self^{-1} = a + s * ((b - a) * s^(-1) mod 2^k)
         // (essentially one step of the Garner's algorithm for recovery from RNS).
 
-        // `s` is odd, so this always exists
-        let m_odd_inv = s.inv_mod2k(k).expect("inverse mod 2^k exists");
+        // `s` is odd, so this always exists -- except for a zero modulus (`s = 0`),
+        // for which the result is none anyway.
+        let m_odd_inv = s.inv_mod2k(k).unwrap_or(Self::ZERO);
 
         // This part is mod 2^k
         let shifted = Uint::ONE.overflowing_shl(k).unwrap_or(Self::ZERO);
